@@ -183,6 +183,14 @@ def v_yield(ex, g, fid, args):
     return None
 
 
+@vfunc("vSettle")
+def v_settle(ex, g, fid, args):
+    """natively a short sleep so that the other goroutines park first. Symbolically a plain
+    scheduling point: every interleaving at visible operations is explored anyway."""
+    conc.maybe_yield(ex, g, g.stack[-1])
+    return None
+
+
 @vfunc("vIte")
 def v_ite(ex, g, fid, args):
     return ite(args[0], args[1], args[2], 64)
